@@ -72,6 +72,13 @@ def temps(S, cfg):
     for a in range(n_asm):
         for j in range(1, n_term):
             S.le(f'cumulative[{a},{j}]', dT[a, j], T[a, j] - T[a, j - 1])
+    # the sequence is cumulative in the strict sense: what is reported for location j is what a calculation that stops at
+    # location j reports - uncertainties of deeper locations (gap, fuel) do not leak into the coolant / clad values
+    for j in range(n_term - 1):
+        hj = {k: v[:, :, :j + 1] for k, v in hcf.items()}
+        Tj = hotspot.calculate_temps(T_in, dT[:, :j + 1], hj, IN_sigma=IN, OUT_sigma=OUT)
+        for a in range(n_asm):
+            S.eq(f'cumulative.prefix_consistent[{a},{j}]', T[a, j], Tj[a, j])
     S.eq('canary.stat_independent_of_out_sigma', T, T0, canary=True)
 temps.cname = 'hotspot.calculate_temps'
 temps.run_kw = dict(budget_ms=10000)
